@@ -14,7 +14,7 @@ import numpy as np
 
 from ..poly import z3mod
 from ..dromodels import CompiledDRO, dro_hold
-from ..drogen import members
+from ..drogen import members, lookup
 from ..smt import HarnessError, fval
 from ..harness import finding
 from ..util import quiet
@@ -29,14 +29,15 @@ META = dict(
     rule='one case = one dro model; per compiled block one exists-forall projection obligation; exact-optimum '
          'equalities; special cases (SAA, single scenario = ro); non-trivial = model feasible and bounded and at least '
          'one projection obligation with local columns discharged; distinct by member name',
-    bounds='as C03; blocks with > 60 local columns are stretch obligations',
+    bounds='as C03; blocks with > 30 local columns are stretch obligations',
     outside='as C03; expectation sets with cone constraints (mix_support forwards second-order cones only)',
     assumptions=['Lemma J, Lemma V', 'supports compact, expectation/probability sets non-empty (checked: W has vertices)'],
 )
 
 
 def cases(tier, seed, rnd):
-    return [dict(name=n) for n in members()]
+    n = 12 if tier == 'quick' else 400
+    return [dict(name=n_) for n_ in members()] + [dict(name='rand%d' % rnd.randint(0, 10 ** 6)) for _ in range(n)]
 
 
 def semantic(cm, vs, z3):
@@ -51,8 +52,16 @@ def semantic(cm, vs, z3):
 def run_case(case, ses):
     z3 = z3mod()
     name = case['name']
-    with quiet():
-        cm = CompiledDRO(members()[name])
+    try:
+        with quiet():
+            cm = CompiledDRO(lookup(name))
+    except HarnessError:
+        raise
+    except Exception as e:
+        if name.startswith('rand'):
+            ses.stats.kinds['member-rejected-by-rsome'] = ses.stats.kinds.get('member-rejected-by-rsome', 0) + 1
+            return
+        raise
     ses.stats.programs += 1
     cp = cm.cp
     vs = cp.z3vars()
@@ -103,7 +112,7 @@ def run_case(case, ses):
         loc = sorted(blk['locals'])
         bc = cp.block_cons(blk, vs)
         label = '%s/block%d(%dr,%dl)' % (name, bi, len(blk['rows']), len(loc))
-        core = len(loc) <= 60
+        core = len(loc) <= 30
         q = z3.ForAll([vs[j] for j in loc], z3.Not(z3.And(bc))) if loc else z3.Not(z3.And(bc))
         res, model = ses.oblige(label, S + Sdefs, [q], kind='projection' if loc else 'projection-qf', core=core,
                                 twin=(bi == 0), sample=dict(model=name, rows=len(blk['rows']), locals=len(loc)))
@@ -151,7 +160,7 @@ def replay(data, verbose=False):
     import scipy.optimize as opt
     name = data['name']
     with quiet():
-        cm = CompiledDRO(members()[name])
+        cm = CompiledDRO(lookup(name))
     f = cm.formula
     if 'point' in data:
         pt = {k: float(Fraction(v)) for k, v in data['point'].items()}
